@@ -1,5 +1,6 @@
 import ctypes
 import numbers
+import operator
 from enum import Enum
 
 ############
@@ -137,8 +138,16 @@ class Command(ctypes.Structure):
         for cls in type(self).__mro__:
             for field in cls.__dict__.get("_fields_", []):
                 value = kwargs.get(field[0])
-                if isinstance(value, numbers.Integral) and not isinstance(value, bool):
-                    assert_fits(value, field[1])
+                if isinstance(value, bool):
+                    continue
+                if not isinstance(value, numbers.Integral):
+                    # ctypes also takes (and truncates) any object that can be used as an
+                    # index, e.g. a zero-dimensional numpy array
+                    try:
+                        value = operator.index(value)
+                    except TypeError:
+                        continue
+                assert_fits(value, field[1])
         try:
             super().__init__(*args, **kwargs)
         except TypeError as err:
